@@ -31,3 +31,24 @@ pub fn install_panic_hook() {
     }));
 }
 
+
+/// Accept-Language headers whose best match among the fixture's locales is not a matter of taste: an entry equal to a
+/// configured locale wins; otherwise the configured locale that is a less specific form of the entry, the most specific
+/// such form first (`zh-Hant` before `zh` for `zh-Hant-TW`); entries are tried in the order listed; unparseable entries
+/// are ignored; no match gives the default. Written by hand from those rules, independent of the library's matcher.
+/// Headers not listed here (wildcards, empty elements, a more specific configured locale than the request) are judged
+/// with the library's own `find_locale`, as C12 is not re-judged in this simulation.
+pub const AUDITED_BEST_MATCH: &[(&str, &str)] = &[
+    ("", "en"), ("fr", "fr"), ("de", "de"), ("en", "en"), ("pt-BR", "pt-br"), ("pt-br", "pt-br"), ("fr-CA", "fr-CA"),
+    ("fr-CA,fr;q=0.9,en;q=0.8", "fr-CA"), ("es,fr;q=0.9", "fr"), ("es,it", "en"), ("de-AT,de;q=0.9", "de"),
+    ("zz-ZZ,pt-BR;q=0.8", "pt-br"), ("en-US,en;q=0.9", "en"), ("fr-FR", "fr"), ("not a language,de", "de"), ("de;q=0.9;x=y", "de"),
+    ("zh", "zh"), ("zh-Hant", "zh-Hant"), ("zh-Hant-TW", "zh-Hant"), ("zh-Hant-HK,zh;q=0.8", "zh-Hant"), ("zh-CN", "zh"),
+    ("zh-Hans-CN,en;q=0.5", "zh"), ("es,zh-Hant-TW;q=0.7", "zh-Hant"), ("de,en;q=0.5", "de"), ("es", "en"),
+    ("ar", "ar"), ("ar-EG,en;q=0.5", "ar"), ("he,ar;q=0.3", "ar"),
+    ("es, fr", "fr"), ("fr-CA, fr;q=0.9, en;q=0.8", "fr-CA"), ("it , de", "de"), ("es,\tpt-BR", "pt-br"),
+];
+
+pub fn audited_best_match(accept: &str) -> Option<usize> {
+    let want = AUDITED_BEST_MATCH.iter().find(|(h, _)| *h == accept)?.1;
+    crate::fixture::LOCS.iter().position(|l| *l == want)
+}
